@@ -109,6 +109,7 @@ pub fn check_on(c: &Case, ctx: &mut Ctx, ind: &mut Ind) -> Result<(), Failure> {
     let (mut ups, mut downs, mut equals) = (false, false, false);
     let (mut checked, mut ill, mut degen, mut taint) = (0u64, 0u64, 0u64, 0u64);
     for i in 0..len {
+        crate::tele::step(ind, &c.cfg);
         let (out, bar) = if c.scalar {
             let x = c.xs[i].0;
             fp.f(x);
@@ -452,6 +453,9 @@ pub fn run(g: &mut Global) {
     let hi = g.tier.pick(400usize, 3000usize);
     g.random("random", g.tier.pick(60000, 400000), &move || strategy(1, hi, 0), &check);
     g.random("long", g.tier.pick(48, 600), &|| strategy(5000, 10000, 0), &check);
+    // identity events (tele.rs): at one or two steps the instance is replaced by its clone, by a used instance
+    // (same or longer periods) that clone_from()s it, or by its serde round trip; nothing may change
+    g.random("events", g.tier.pick(12000, 100000), &move || crate::tele::wrap(strategy(1, hi, 0)), &|t: &crate::tele::TCase<Case>, ctx: &mut Ctx| crate::tele::check_wrapped(t, ctx, if t.case.scalar { t.case.xs.len() } else { t.case.bars.len() }, t.case.cfg.n(), check));
     // the same formulas after reset() (the property counts t "since construction/reset"): resets at multiples of
     // the period, next to them, anywhere, and a second reset before the window refilled
     g.random("resets", g.tier.pick(20000, 150000), &reset_strategy, &check_resets);
